@@ -933,6 +933,104 @@ def cross_resolve(sx, kind):
     return [mine, theirs, got]
 
 
+def reset(sx):
+    envl.WhileWaiting.fn = None
+
+
+def cross_connect_after_rebind(sx, pre):
+    """A knows (or does not know) the address of a remote service name from
+    an earlier resolve(); the peer then closes and re-binds its services so
+    that the name moves; connect(name) must reach the socket bound under the
+    name NOW (reference: B's table at connect time) or be refused."""
+    n = Net(sx)
+    A, B = n.A, n.mk()
+    X, Y = NAMES["a"][0], NAMES["b"][0]
+    table = {}          # name -> listening socket of B
+
+    def serve(name):
+        s = B.socket(DLC)
+        B.bind(s, name)
+        B.listen(s, 1)
+        table[name] = s
+        return s
+
+    first = sx.pick("first", ["X", "Y"])
+    for nm in ([X, Y] if first == "X" else [Y, X]):
+        serve(nm)
+    if pre == "resolve":
+        try:
+            got = A.resolve(X)
+            sx.check(False, "rebind:resolve-setup")
+        except envl.WouldBlock:
+            n.transfer(A, B, "rebind")
+            n.transfer(B, A, "rebind")
+            got = A.resolve(X)
+        sx.check(got == B.getsockname(table[X]), "rebind:first-resolve")
+        sx.reach("rebind:resolved-before")
+    change = sx.pick("change", ["swap", "move", "unbind", "takeover", "nothing"])
+    if change == "swap":
+        B.close(table[X])
+        B.close(table[Y])
+        serve(Y) if first == "X" else serve(X)
+        serve(X) if first == "X" else serve(Y)
+    elif change == "move":
+        # the old address goes to an anonymous listener, the name elsewhere
+        old = B.getsockname(table[X])
+        B.close(table[X])
+        o = B.socket(DLC)
+        B.bind(B.socket(LDL), filler(80))
+        serve(X)
+        table["other"] = o
+    elif change == "unbind":
+        B.close(table.pop(X))
+    elif change == "takeover":
+        # the name is gone, its old address serves another name
+        B.close(table.pop(X))
+        B.close(table.pop(Y))
+        serve(Y) if first == "X" else serve(filler(81))
+    want = table.get(X)
+    sa = A.socket(DLC)
+    hit = []
+
+    def run_loops():
+        n.transfer(A, B, "rebind")
+        for key in sorted(table, key=str):
+            s = table[key]
+            if s.state.LISTEN and len(s.recv_queue):
+                hit.append(key)
+                s_acc = B.accept(s)
+                hit.append(s_acc)
+        n.transfer(B, A, "rebind")
+    envl.while_waiting(run_loops)
+    try:
+        A.connect(sa, X)
+        refused = None
+    except nfc.llcp.Error as e:
+        refused = e
+    keys = [h for h in hit if isinstance(h, (str, bytes))]
+    if want is None:
+        sx.check(keys == [], "rebind:connect-reached-a-socket-not-bound-under-the-name")
+        if refused is None:
+            sx.check(False, "rebind:connect-to-unbound-name-succeeded")
+        sx.check(isinstance(refused, nfc.llcp.ConnectRefused)
+                 and refused.errno == errno.ECONNREFUSED,
+                 "rebind:unbound-name-not-reported-as-refused")
+        sx.reach("rebind:refused")
+        return [pre, first, change, "refused"]
+    if keys != [X]:
+        sx.check(False, "rebind:connect-reached-the-wrong-socket" if keys
+                 else "rebind:connect-reached-no-socket")
+    if refused is not None:
+        sx.check(False, "rebind:connect-to-bound-name-failed")
+    acc = hit[1]
+    now = B.getsockname(want)
+    sx.check(A.getpeername(sa) == now and acc.addr == now
+             and acc.peer == A.getsockname(sa),
+             "rebind:connected-to-another-address-than-the-name-has")
+    sx.reach("rebind:connected")
+    return [pre, first, change, now]
+
+
 # ----------------------------------------------------------------------------
 def partitions(tier):
     parts = []
@@ -970,6 +1068,9 @@ def partitions(tier):
     for kind in ("sendto", "connect"):
         parts.append(dict(name="cross-resolve:" + kind, fn="cross_resolve",
                           params=dict(kind=kind)))
+    for pre in ("resolve", "none"):
+        parts.append(dict(name="cross-connect-after-rebind:" + pre,
+                          fn="cross_connect_after_rebind", params=dict(pre=pre)))
     for key in ("a", "snep"):
         parts.append(dict(name="lifecycle:" + key, fn="lifecycle",
                           params=dict(key=key, k=3 if tier == "quick" else 4)))
@@ -985,9 +1086,10 @@ MUST_REACH = ["history-end", "EAGAIN", "bind-addr-ok", "bind-addr:EFAULT",
               "reuse-after-close", "exhaust-dynamic-end", "exhaust-named-end",
               "lifecycle-end", "close:again", "reclose-end",
               "resolve:name-also-local", "cross-resolve:found",
-              "cross-resolve:absent"]
+              "cross-resolve:absent", "rebind:resolved-before",
+              "rebind:refused", "rebind:connected"]
 BOUNDS = {
-    "quick": "histories of 1 fixed operation (15 kinds) + up to 2 picked from 11 (socket+bind none/address/name for the three socket kinds, second bind of a bound socket, listen, close, datagram from a second controller, resolve and connect-by-name through collect()/dispatch()), addresses symbolic inside windows {-1..1, 3..5, 31..33, 63..64}; bind(address) with the address symbolic over -1..64 after four table prefixes (fresh, populated, after close, all 48 bindable addresses taken) for each socket kind, bound twice and re-bound after close; all 32 dynamic / 16 named addresses taken, one closed, then a suffix of up to 2 operations; datagrams with symbolic DSAP 0..63, SSAP 0..63 and payload octets (lengths 0..3, one or two datagrams) against a populated table; named listener + accepted connection closed in any order (also twice) with up to 3 operations; close() repeated on a socket whose address was re-assigned in between (3 x 2 socket kinds, bind by none/address/name) + up to 2 operations; both devices binding the same service name at different addresses, A resolving it and sending a datagram / connecting to the answer; resolve with the name also bound on the resolving device; names from a fixed alphabet of 8 (+ 17 filler names), given as bytes or text",
+    "quick": "histories of 1 fixed operation (15 kinds) + up to 2 picked from 11 (socket+bind none/address/name for the three socket kinds, second bind of a bound socket, listen, close, datagram from a second controller, resolve and connect-by-name through collect()/dispatch()), addresses symbolic inside windows {-1..1, 3..5, 31..33, 63..64}; bind(address) with the address symbolic over -1..64 after four table prefixes (fresh, populated, after close, all 48 bindable addresses taken) for each socket kind, bound twice and re-bound after close; all 32 dynamic / 16 named addresses taken, one closed, then a suffix of up to 2 operations; datagrams with symbolic DSAP 0..63, SSAP 0..63 and payload octets (lengths 0..3, one or two datagrams) against a populated table; named listener + accepted connection closed in any order (also twice) with up to 3 operations; close() repeated on a socket whose address was re-assigned in between (3 x 2 socket kinds, bind by none/address/name) + up to 2 operations; both devices binding the same service name at different addresses, A resolving it and sending a datagram / connecting to the answer; resolve with the name also bound on the resolving device; connect(name) through the real connect() after the peer closed and re-bound its two named listeners (swap, move, unbind, take-over, nothing), with and without an earlier resolve() of the name; names from a fixed alphabet of 8 (+ 17 filler names), given as bytes or text",
     "thorough": "as quick with histories of 2 fixed (26 x 7) + up to 2 picked operations, suffixes of up to 3/4 operations after exhaustion and up to 4 in the listener life cycle",
 }
 OUTSIDE = ["operations on closed sockets", "service names outside the alphabet (the name syntax check is a regular expression on concrete bytes)",
